@@ -389,4 +389,61 @@ def run(world, tier, info, only=None):
             ck.ob("R9", "direct-write-sets-dirty:%s@%d" % (p9.split("::")[-1], k + 1), okd, site(s9), "a direct store of the payload word marks the port dirty")
     ck.floor("R9", "direct payload stores in veryl_component::ctx", n9, 2)
     ck.analysed = {"commit_callers": callers, "stage_callers": stage_callers, "fire_callers": fire_callers}
+    _word_masks(ck, w)
     return ck.finish(info)
+
+
+def _word_masks(ck, w):
+    """R11: a mask `(1u64 << k) - 1` for the top word of a port is right for k in 1..63 only: k == 64 overflows the shift and k == 0
+    (width % 64 for a width that fills its last word) gives the empty mask, which clears the word. Every `1 << k` in veryl_component
+    must sit under a branch that compared k (with 64 or with 0), i.e. the full-word case is handled apart."""
+    from mirlib import MustFacts, Sem
+    n = 0
+    for p, x in sorted(w.fns.items()):
+        if not p.startswith("veryl_component::") or x.get("alias_of") or "::tests::" in p:
+            continue
+        if "mir" not in x and False:
+            continue
+        try:
+            g = Fn(w.mir(p))
+        except Exception:
+            continue
+        mf = sem = None
+        for bi, b in enumerate(g.blocks):
+            if b.get("cu"):
+                continue
+            for si, st in enumerate(b["s"]):
+                if not (st[0] == "=" and st[2][0] == "bin" and st[2][1] in ("Shl", "ShlUnchecked") and st[2][2][0] == "k"
+                        and isinstance(st[2][2][1], dict) and str(st[2][2][1].get("int")) == "1" and st[2][3][0] != "k"):
+                    continue
+                n += 1
+                if mf is None:
+                    mf, sem = MustFacts(g), Sem(g, 10)
+                k = g.describe(st[2][3], 8)
+                kk = repr(k)
+                inner = [kk] + [repr(y) for y in (k[1:] if isinstance(k, tuple) else ()) if isinstance(y, tuple)]
+                ok = False
+                # a *branch* (switch) on a comparison of k that reaches the shift; the overflow assertion rustc inserts (`assert(k < 64)`)
+                # is not a branch and does not count
+                for sb, sblk in enumerate(g.blocks):
+                    t = sblk["t"]
+                    if t["t"] != "sw" or t["on"][0] == "k" or t["on"][1][1] or bi not in g.reach_from(sb):
+                        continue
+                    d = g.def_of(t["on"][1][0])
+                    if not d or d[0] != "s":
+                        continue
+                    rv = g.rvalue_at(d)
+                    if rv[0] != "bin" or rv[1] not in ("Lt", "Le", "Gt", "Ge", "Eq", "Ne"):
+                        continue
+                    sides = [repr(g.describe(o, 8)) if o[0] != "k" else repr(("const", o[1].get("int"))) for o in (rv[2], rv[3])]
+                    consts = [o[1].get("int") for o in (rv[2], rv[3]) if o[0] == "k" and isinstance(o[1], dict)]
+                    if not any(str(c) in ("0", "63", "64") for c in consts):
+                        continue
+                    if any(sd == c or sd in c or c in sd for sd in sides for c in inner if "const" not in sd[:9]):
+                        ok = True
+                ck.ob("R11", "word-mask-guarded:%s@%d" % (p.split("::")[-1], n), ok, site(x, st[3]),
+                      "the mask `(1 << k) - 1` is built only under a comparison of k: the full-word case is handled apart" if ok else
+                      "`1 << k` with no comparison of k on the way: for a width that fills its top word k is 0 (or 64) and the mask clears the "
+                      "whole word (or the shift overflows) - a 128-bit port loses bits 64..127")
+    ck.floor("R11", "`1 << k` masks in veryl_component", n, 1)
+
